@@ -1,4 +1,5 @@
 import Modbus.Lemmas.Reception2
+import Modbus.Lemmas.TcpHeader
 /-
 Incremental reception (C10): the extractors, and `Good` for every well-formed frame of the four
 scanners.
@@ -73,29 +74,59 @@ theorem rtu_extractFrame_whole (slave : UInt8) (pdu rest : Bytes) (hn : pdu.leng
     simp [read16, rd16_be16]
   simp [hr, idx]
 
-/-- TCP: a buffer shorter than the ADU is 'incomplete' -/
+/-- TCP: a buffer shorter than the ADU whose visible header bytes are consistent (protocol id 0 if four
+bytes are there, length field `n + 1` if six are) is 'incomplete' -/
 theorem tcp_extractFrame_short (p : Bytes) (n : Nat) (hne : p ≠ []) (hn : n ≤ 65538)
-    (hlt : p.length < n + 7) : Tcp.extractFrame p n = .ok none := by
-  have he : p.isEmpty = false := by
-    cases p with
-    | nil => exact absurd rfl hne
-    | cons _ _ => rfl
-  have h1 : ¬ (7 + n ≥ usizeLimit) := by unfold usizeLimit; omega
-  have h2 : ¬ (p.length ≥ 7 + n) := by omega
-  unfold Tcp.extractFrame
-  simp only [he, Bool.false_eq_true, if_false, h1, h2]
+    (hp : Tcp.checkProtocolId p = .ok ()) (hl : Tcp.checkLengthField p n = .ok ())
+    (hlt : p.length < n + 7) : Tcp.extractFrame p n = .ok none :=
+  Tcp.extractFrame_short hne (by unfold usizeLimit; omega) hp hl (by omega)
 
 theorem read16_hdr4 (a b c d u : UInt8) (L : UInt16) (t : Bytes) :
     read16 ([a, b, c, d, Spec.hi L, Spec.lo L, u] ++ t) 4 = .ok L := by
   simp [read16, Spec.hi, Spec.lo, rd16_be16]
 
+/-- both header checks pass on an MBAP header with protocol id 0 and length `n + 1`, whatever follows -/
+theorem tcp_checks_mbap (tid : UInt16) (uid : UInt8) (n : Nat) (t : Bytes) (hn : n + 1 < 65536) :
+    Tcp.checkProtocolId (mbap tid uid n ++ t) = .ok () ∧
+    Tcp.checkLengthField (mbap tid uid n ++ t) n = .ok () := by
+  constructor
+  · unfold Tcp.checkProtocolId
+    rw [if_pos (by simp [mbap])]
+    have r2 : read16 (mbap tid uid n ++ t) 2 = .ok 0 := by
+      simp [read16, mbap]; decide
+    rw [r2]; rfl
+  · unfold Tcp.checkLengthField
+    rw [if_pos (by simp [mbap])]
+    have r4 : read16 (mbap tid uid n ++ t) 4 = .ok (UInt16.ofNat (n + 1)) := read16_hdr4 _ _ _ _ _ _ _
+    have hm : (UInt16.ofNat (n + 1)).toNat = n + 1 := by
+      rw [UInt16.toNat_ofNat']; omega
+    rw [r4]
+    simp only [Res.bind'_ok, hm, ne_eq, not_true_eq_false, if_false]
+
+/-- … hence on a well-formed frame followed by anything … -/
+theorem tcp_checks_frame (tid : UInt16) (uid : UInt8) (pdu rest : Bytes) (hn : pdu.length + 1 < 65536) :
+    Tcp.checkProtocolId (Spec.tcpFrame tid uid pdu ++ rest) = .ok () ∧
+    Tcp.checkLengthField (Spec.tcpFrame tid uid pdu ++ rest) pdu.length = .ok () := by
+  rw [tcpFrame_split]; exact tcp_checks_mbap tid uid pdu.length _ hn
+
+/-- … and on every prefix of it: a prefix with four bytes still shows protocol id 0, one with six
+bytes still shows the right length field -/
+theorem tcp_checks_prefix (tid : UInt16) (uid : UInt8) (pdu p : Bytes) (hn : pdu.length + 1 < 65536)
+    (hp : p <+: Spec.tcpFrame tid uid pdu) :
+    Tcp.checkProtocolId p = .ok () ∧ Tcp.checkLengthField p pdu.length = .ok () := by
+  have h := tcp_checks_frame tid uid pdu [] hn
+  rw [List.append_nil] at h
+  exact ⟨Tcp.checkProtocolId_prefix hp h.1, Tcp.checkLengthField_prefix hp h.2⟩
+
 /-- TCP: MBAP header with protocol id 0 and length `n + 1`, the PDU, then anything: the frame -/
 theorem tcp_extractFrame_whole (tid : UInt16) (uid : UInt8) (pdu rest : Bytes)
     (hn : pdu.length + 1 < 65536) :
     Tcp.extractFrame (Spec.tcpFrame tid uid pdu ++ rest) pdu.length = .ok (some ⟨tid, uid, pdu⟩) := by
+  obtain ⟨c1, c2⟩ := tcp_checks_frame tid uid pdu rest hn
   have e : Spec.tcpFrame tid uid pdu ++ rest =
       (mbap tid uid pdu.length ++ pdu) ++ rest := by
     simp [Spec.tcpFrame, Spec.word, mbap]
+  rw [e] at c1 c2
   have hl : (mbap tid uid pdu.length ++ pdu).length = 7 + pdu.length := by simp [mbap]; omega
   have h1 : ¬ (7 + pdu.length ≥ usizeLimit) := by unfold usizeLimit; omega
   have h2 : ((mbap tid uid pdu.length ++ pdu) ++ rest).length ≥ 7 + pdu.length := by
@@ -103,7 +134,7 @@ theorem tcp_extractFrame_whole (tid : UInt16) (uid : UInt8) (pdu rest : Bytes)
   have hne : ((mbap tid uid pdu.length ++ pdu) ++ rest).isEmpty = false := by simp [mbap]
   unfold Tcp.extractFrame
   rw [e]
-  simp only [hne, Bool.false_eq_true, if_false, h1]
+  simp only [hne, Bool.false_eq_true, if_false, h1, c1, c2, Res.bind'_ok]
   rw [if_pos h2]
   have ht : ((mbap tid uid pdu.length ++ pdu) ++ rest).take (7 + pdu.length) =
       mbap tid uid pdu.length ++ pdu := by
@@ -131,44 +162,52 @@ theorem tcp_req_good (tid : UInt16) (uid : UInt8) (pdu : Bytes)
     (hc : Spec.PduComplete .req pdu) (hn : pdu.length + 1 < 65536) :
     Good Tcp.decodeReq (Spec.tcpFrame tid uid pdu) ⟨tid, uid, pdu⟩ := by
   have hb := pduComplete_bounds hc
-  apply good_of_attempt Tcp.requestPduLen Tcp.extractFrame 7 _ _ pdu.length
+  apply good_of_attempt (fun raw => (Tcp.checkProtocolId raw).bind fun _ => Tcp.requestPduLen raw)
+    Tcp.extractFrame 7 _ _ pdu.length
   · exact tcpFrame_length tid uid pdu
   · rw [tcpFrame_length]; omega
   · intro rest
+    simp only [(tcp_checks_frame tid uid pdu rest hn).1, Res.bind'_ok]
     rw [tcp_requestPduLen_eq, tcpFrame_split, predict_framed hc 7 _ _ rfl]; rfl
   · intro p hp _
     have hp' : p <+: mbap tid uid pdu.length ++ (pdu ++ ([] ++ [])) := by
       rw [← tcpFrame_split]; simpa using hp
+    simp only [(tcp_checks_prefix tid uid pdu p hn hp).1, Res.bind'_ok]
     rw [tcp_requestPduLen_eq]
     rcases predict_framed_prefix hc 7 _ _ p rfl hp' with h | h <;> rw [h]
     · exact .inl rfl
     · exact .inr rfl
   · intro rest; exact tcp_extractFrame_whole tid uid pdu rest hn
-  · intro p hne hlt
+  · intro p hne hp hlt
     rw [tcpFrame_length] at hlt
-    exact tcp_extractFrame_short p _ hne (by omega) hlt
+    obtain ⟨c1, c2⟩ := tcp_checks_prefix tid uid pdu p hn hp
+    exact tcp_extractFrame_short p _ hne (by omega) c1 c2 hlt
 
 /-- C10 for TCP responses -/
 theorem tcp_rsp_good (tid : UInt16) (uid : UInt8) (pdu : Bytes)
     (hc : Spec.PduComplete .rsp pdu) (hn : pdu.length + 1 < 65536) :
     Good Tcp.decodeRsp (Spec.tcpFrame tid uid pdu) ⟨tid, uid, pdu⟩ := by
   have hb := pduComplete_bounds hc
-  apply good_of_attempt Tcp.responsePduLen Tcp.extractFrame 7 _ _ pdu.length
+  apply good_of_attempt (fun raw => (Tcp.checkProtocolId raw).bind fun _ => Tcp.responsePduLen raw)
+    Tcp.extractFrame 7 _ _ pdu.length
   · exact tcpFrame_length tid uid pdu
   · rw [tcpFrame_length]; omega
   · intro rest
+    simp only [(tcp_checks_frame tid uid pdu rest hn).1, Res.bind'_ok]
     rw [tcp_responsePduLen_eq, tcpFrame_split, predict_framed hc 7 _ _ rfl]; rfl
   · intro p hp _
     have hp' : p <+: mbap tid uid pdu.length ++ (pdu ++ ([] ++ [])) := by
       rw [← tcpFrame_split]; simpa using hp
+    simp only [(tcp_checks_prefix tid uid pdu p hn hp).1, Res.bind'_ok]
     rw [tcp_responsePduLen_eq]
     rcases predict_framed_prefix hc 7 _ _ p rfl hp' with h | h <;> rw [h]
     · exact .inl rfl
     · exact .inr rfl
   · intro rest; exact tcp_extractFrame_whole tid uid pdu rest hn
-  · intro p hne hlt
+  · intro p hne hp hlt
     rw [tcpFrame_length] at hlt
-    exact tcp_extractFrame_short p _ hne (by omega) hlt
+    obtain ⟨c1, c2⟩ := tcp_checks_prefix tid uid pdu p hn hp
+    exact tcp_extractFrame_short p _ hne (by omega) c1 c2 hlt
 
 /-- C10 for RTU responses -/
 theorem rtu_rsp_good (slave : UInt8) (pdu : Bytes) (hc : Spec.PduComplete .rsp pdu) :
@@ -187,7 +226,7 @@ theorem rtu_rsp_good (slave : UInt8) (pdu : Bytes) (hc : Spec.PduComplete .rsp p
     · exact .inl rfl
     · exact .inr rfl
   · intro rest; exact rtu_extractFrame_whole slave pdu rest hb.2
-  · intro p hne hlt
+  · intro p hne _ hlt
     rw [rtuFrame_length] at hlt
     exact rtu_extractFrame_short p _ hne hb.2 hlt
 
@@ -233,7 +272,7 @@ theorem rtu_req_good_partial (slave : UInt8) (pdu : Bytes) (hc : Spec.PduComplet
     · exact .inl rfl
     · exact .inr rfl
   · intro rest; exact rtu_extractFrame_whole slave pdu rest hb.2
-  · intro p hne hlt
+  · intro p hne _ hlt
     rw [rtuFrame_length] at hlt
     exact rtu_extractFrame_short p _ hne hb.2 hlt
 
